@@ -75,8 +75,8 @@ def run(ctx):
     with open(cases_path, "w") as f:
         json.dump(cases, f)
     env = {"VERIF_CASES": cases_path,
-           "VERIF_MAX_SERVE": 160 if quick else 100000,
-           "VERIF_RANDOM": 25 if quick else 1500,
+           "VERIF_MAX_SERVE": 160 if quick else 2500,
+           "VERIF_RANDOM": 25 if quick else 500,
            "VERIF_STORE_EVERY": 10 if quick else 6}
     rep = ctx.go_driver("blob", env=env, timeout=900 if quick else 3000)
     c = (rep or {}).get("counters", {})
@@ -84,7 +84,7 @@ def run(ctx):
     ctx.cover(traces_validated_against_impl=int(served + c.get("layouts_equal_to_model", 0)))
     # vacuity: the calls the property is about were really made, with present and absent objects
     need = {"layouts_equal_to_model": len(cases) if not c.get("layout_mismatch") else 1,
-            "blocks_served": 100 if quick else n_prod, "getall_blobs_checked": 100, "getall_absent_ns": 100,
+            "blocks_served": 100 if quick else min(n_prod, 2000), "getall_blobs_checked": 100, "getall_absent_ns": 100,
             "get_present": 100, "get_absent": 100, "getproof_rows_verified": 100,
             "included_calls": 100, "commitmentproof_calls": 100, "blocks_served_via_store": 5,
             "random_blocks": 10}
